@@ -656,13 +656,16 @@ class MPO(MPSGeometry):
         upper_left = 'JW' if needs_JW else 'Id'
 
         grids = []
+        first_kept = np.nonzero(np.abs(coeff) >= eps)[0][0]
         for i in range(L):
             local = None if abs(coeff[i]) < eps else [(op, coeff[i])]
             grid = [[upper_left, local], [None, 'Id']]
-            if i == 0:
-                grid = grid[:1]  # first row only
+            if i <= first_kept:
+                grid = grid[:1]  # first row only: no operator has been applied yet
+            if i < first_kept:
+                grid = [grid[0][:1]]  # ... and none is applied here: only the string
             if i == L - 1:  # last column only
-                grid = [grid[0][1:], grid[1][1:]]
+                grid = [row[-1:] for row in grid]
             grids.append(grid)
         IdL = [0] + [None] * L
         # note: for finite bc, the JW string ends at site 0, so we don't need to worry about
